@@ -31,6 +31,8 @@ import (
 //	         truncates): not a truncation state, judged for C12 only
 type crashState struct {
 	content []byte
+	tmp     []byte // content of the compaction's temporary file next to the cache file
+	hasTmp  bool
 	rewrite bool
 	site    string
 	torn    bool
@@ -40,6 +42,8 @@ type crashRec struct {
 	path    string
 	ino     uint64
 	last    []byte
+	lastTmp []byte
+	tmpN    int
 	states  []crashState
 	rewrite bool
 	rng     *rand.Rand
@@ -65,15 +69,26 @@ func (cr *crashRec) observe(site string) {
 	if err != nil {
 		return
 	}
+	// a compaction writes the records to keep into <file>.tmp and renames it
+	// over the cache file: a kill in between leaves the old cache file and the
+	// temporary file, whatever had reached it
+	tb, terr := os.ReadFile(cr.path + ".tmp")
+	hasTmp := terr == nil
 	if ino := inode(cr.path); ino != cr.ino {
 		// the file was replaced by a rename: atomic, old or new, nothing in between
 		cr.ino = ino
 		cr.rewrite = false
-		cr.states = append(cr.states, crashState{content: b, site: site})
+		cr.states = append(cr.states, crashState{content: b, site: site, tmp: tb, hasTmp: hasTmp})
 		cr.last = b
+		cr.lastTmp = tb
 		return
 	}
 	if bytes.Equal(b, cr.last) {
+		if hasTmp && !bytes.Equal(tb, cr.lastTmp) && cr.tmpN < 6 {
+			cr.tmpN++
+			cr.lastTmp = tb
+			cr.states = append(cr.states, crashState{content: b, site: site + " (temporary file of the compaction left behind)", tmp: tb, hasTmp: true})
+		}
 		return
 	}
 	s1, s2 := cr.last, b
@@ -117,11 +132,12 @@ func (cr *crashRec) observe(site string) {
 			if k < len(s1) {
 				t = append(t, s1[k:]...)
 			}
-			cr.states = append(cr.states, crashState{content: t, rewrite: cr.rewrite, site: site, torn: true})
+			cr.states = append(cr.states, crashState{content: t, rewrite: cr.rewrite, site: site, torn: true, tmp: tb, hasTmp: hasTmp})
 		}
 	}
-	cr.states = append(cr.states, crashState{content: b, rewrite: cr.rewrite, site: site})
+	cr.states = append(cr.states, crashState{content: b, rewrite: cr.rewrite, site: site, tmp: tb, hasTmp: hasTmp})
 	cr.last = b
+	cr.lastTmp = tb
 }
 
 // applyOp executes one operation without crash enumeration (second life).
@@ -177,6 +193,9 @@ func judgeCrashStates(res *sim.RunResult, prop, scratch string, cr *crashRec, be
 	seen := map[string]bool{}
 	for i, st := range cr.states {
 		h := sim.Hash(string(st.content))
+		if st.hasTmp {
+			h = sim.Hash(string(st.content) + "\x00tmp\x00" + string(st.tmp))
+		}
 		if seen[h] {
 			continue
 		}
@@ -199,6 +218,14 @@ func judgeCrashStates(res *sim.RunResult, prop, scratch string, cr *crashRec, be
 		w += ")"
 		tp := filepath.Join(scratch, "crash.cidx")
 		os.WriteFile(tp, st.content, 0o644)
+		os.Remove(tp + ".tmp")
+		if st.hasTmp {
+			os.WriteFile(tp+".tmp", st.tmp, 0o644)
+			res.Count("crash_states_with_compaction_tmp_left_behind", 1)
+			if len(st.tmp) > 8 {
+				res.Count("crash_states_with_compaction_tmp_left_behind_holding_records", 1)
+			}
+		}
 		c, err := converters.VerifNewCacheFile(tp)
 		res.Count("crash_states_restarted", 1)
 		res.Count("fault_kill_at_io_point", 1)
@@ -260,6 +287,28 @@ func judgeCrashStates(res *sim.RunResult, prop, scratch string, cr *crashRec, be
 			n = 3
 		}
 		life := append(append([]Op(nil), next[:n]...), Op{K: "reopen"})
+		if st.hasTmp {
+			// the left-behind temporary file meets the next compaction: drop all
+			// stored streams (or the highest), restart (compacts at load), restart again
+			// (reads what that compaction left)
+			life = life[:0]
+			var have []uint64
+			for id := uint64(0); id < 10; id++ {
+				if _, ok := resolved[id]; ok {
+					have = append(have, id)
+				}
+			}
+			if len(have) > 0 && i%2 == 1 {
+				have = have[len(have)-1:]
+			}
+			if len(have) > 0 {
+				life = append(life, Op{K: "invalidate", IDs: have})
+			}
+			if n > 2 {
+				n = 2
+			}
+			life = append(append(life, next[:n]...), Op{K: "reopen"}, Op{K: "reopen"})
+		}
 		for j, op := range life {
 			if msg := applyOp(&c, tp, resolved, op); msg != "" {
 				c.Close()
